@@ -52,6 +52,10 @@ def build_world(ctx, rng, base, git):
                               global_mode=rng.choice(["none", "toml", "dep5"]), git=False)
     trees.build(recipe, proj, ctx.state["styles"])
     sent.mkdir()
+    if recipe["global_mode"] == "dep5" and rng.random() < 0.4:
+        # .reuse/dep5 is a link to a file kept elsewhere (shared between checkouts): converting may remove the link, not touch its target
+        shutil.move(str(proj / ".reuse" / "dep5"), str(sent / "shared.dep5"))
+        os.symlink(str(sent / "shared.dep5"), proj / ".reuse" / "dep5")
     (sent / "outside.py").write_text("print('outside')\n")
     (sent / "odir").mkdir()
     (sent / "odir" / "inner.c").write_text("int x;\n")
